@@ -179,6 +179,10 @@ def rule_payload(ctx):
             ctx.check(p.outcome == 'Option::None()', 'K4', 'PayloadDelta::construct:empty=>None', 'empty delta -> None', 'empty delta -> %s' % p.outcome)
         elif emp == 'false':
             ctx.check(p.outcome.startswith('Option::Some('), 'K4', 'PayloadDelta::construct:nonempty=>Some', 'non-empty delta -> Some', 'non-empty delta -> %s' % p.outcome)
+        elif re.match(r'^call:Option::filter\(Option::Some\(.*\),.*\{closure#\d+\}.*\)$', p.outcome or '') and \
+                any(re.match(r'^Not\(call:PayloadDelta::is_empty\(', cp.outcome or '') for c in ctx.closures(b) for cp in enumerate_paths(c, ctx.facts)):
+            # `Some(delta).filter(|d| !d.is_empty())`
+            ctx.ok('K4', 'PayloadDelta::construct:empty=>None', 'empty delta filtered out of Some(..)')
         else:
             ctx.bad('K4', 'PayloadDelta::construct:is_empty-not-tested', 'construct does not branch on is_empty()')
     for l in agg_sites(b, 'payload::delta::PayloadDelta'):
